@@ -62,6 +62,13 @@ EP = {
     "e3": hdr.IPv6EndpointOption(ipaddress.IPv6Address("2001:db8::13"), hdr.L4Protocols.UDP, 40003),
     "e4": hdr.IPv4EndpointOption(ipaddress.IPv4Address("192.0.2.14"), hdr.L4Protocols.TCP, 40004),
 }
+# local endpoints of the eventgroups a client subscribes to (C14): IPv4/IPv6 x UDP/TCP
+EP.update({
+    "l1": hdr.IPv4EndpointOption(ipaddress.IPv4Address("192.0.2.100"), hdr.L4Protocols.UDP, 41001),
+    "l2": hdr.IPv6EndpointOption(ipaddress.IPv6Address("2001:db8::100"), hdr.L4Protocols.UDP, 41002),
+    "l3": hdr.IPv4EndpointOption(ipaddress.IPv4Address("192.0.2.100"), hdr.L4Protocols.TCP, 41003),
+    "l4": hdr.IPv6EndpointOption(ipaddress.IPv6Address("2001:db8::100"), hdr.L4Protocols.TCP, 41004),
+})
 REP = {v: k for k, v in EP.items()}
 XOPT = {
     "x1": hdr.SOMEIPSDConfigOption(configs=(("k", "v"),)),
